@@ -56,6 +56,39 @@ int main() {
     while (std::getline(std::cin, line)) {
         std::istringstream ls(line);
         std::string cmd; ls >> cmd;
+        if (cmd == "coldxyz") {
+            // coldxyz <nthreads>: must be the FIRST command of a fresh process: the threads are the first users of
+            // Tree::X() / Y() / Z() in the process (singleton creation) and every one of them must end up with the
+            // same axis nodes and a correctly bound evaluator
+            int nth; ls >> nth;
+            std::atomic<int> ready(0);
+            std::atomic<bool> go(false);
+            std::vector<float> val(nth, 0.0f), val2(nth, 0.0f);
+            std::vector<const void*> idx(nth, nullptr), idy(nth, nullptr), idz(nth, nullptr);
+            std::vector<std::thread> th;
+            for (int t = 0; t < nth; ++t) {
+                th.emplace_back([&, t]() {
+                    ++ready;
+                    while (!go.load(std::memory_order_acquire)) { }
+                    Tree x = Tree::X(), y = Tree::Y(), z = Tree::Z();
+                    idx[t] = x.id(); idy[t] = y.id(); idz[t] = z.id();
+                    Tree s = sqrt(x * x + y * y + z * z) - Tree(1.0f);
+                    val[t] = eval_at(s, Eigen::Vector3f(2.0f, 3.0f, 6.0f));
+                    Tree r = s.remap(y, z, x);
+                    val2[t] = eval_at(r, Eigen::Vector3f(2.0f, 3.0f, 6.0f));
+                });
+            }
+            while (ready.load() < nth) { }
+            go.store(true, std::memory_order_release);
+            for (auto& x : th) x.join();
+            long bad = 0;
+            for (int t = 0; t < nth; ++t) {
+                if (!close(val[t], 6.0f) || !close(val2[t], 6.0f)) ++bad;
+                if (idx[t] != Tree::X().id() || idy[t] != Tree::Y().id() || idz[t] != Tree::Z().id()) ++bad;
+            }
+            std::cout << "CX threads=" << nth << " bad=" << bad << std::endl;
+            continue;
+        }
         if (cmd == "lastref") {
             unsigned seed; int nth, trials; ls >> seed >> nth >> trials;
             std::mt19937 rng(seed);
